@@ -81,140 +81,119 @@ def same_mode_alignment(cont, dissim, mode):
     return cont.get_best_alignment(dissim)
 
 
-def run(rep, tier, seed, pa):
-    ac.install_backend_hooks()
-    rng = rng_for(seed, "C05")
-    conf = source_constants()
-    levels = dict(pa.continuum.PRECISION_LEVEL)
-    rep.extra["source_constants"] = {"confidence": conf, "PRECISION_LEVEL": levels}
-    nruns = 45 if tier == "quick" else 450
-    rule_lines, rule_meta = [], []
-    check_items = {"exact": [], "fast": [], "soft": []}
-    for ri in range(nruns):
-        n = rng.choice([2, 3, 3, 4])
-        sizes = [rng.randrange(2, 7 if n < 4 else 4) for _ in range(n)]
-        identical = ri % 9 == 0
-        units = gen.gen_units(rng, n, sizes, "identical" if identical else rng.choice(["perturbed", "random", "disjoint"]), gen.LABEL_SETS["abc"])
-        if identical:
-            units = [list(units[0]) for _ in range(n)]
-        if any(len(u) == 0 for u in units):
-            continue
-        spec = gen.random_dissim_spec(rng, "abc", False, kinds=["pos", "comb", "comb"])
-        if spec[0] == "comb" and spec[4] in ("num",):
-            spec = spec[:4] + ("abs",) + spec[5:]
-        mode = rng.choice(["exact", "exact", "fast", "soft"])
-        sname = rng.choice(["stat", "shuffle-int", "shuffle-float"])
-        # named levels: "high" (1 %) asks for thousands of samples, so it is drawn rarely and only in thorough
-        prec = rng.choice([None, None, 0.9, 0.5, 0.3, 0.2, 0.1, "low", "low", "medium"] if tier == "thorough" else [None, None, 0.9, 0.5, 0.3, 0.2, "low"])
-        if tier == "thorough" and rng.random() < 0.02:
-            prec = "high"
-        n_samples = rng.choice([1, 2, 3, 5, 8])
-        names = gen.ANNOTATORS[:n]
-        gt = None
-        if n >= 3 and rng.random() < 0.4:
-            gt = sorted(rng.sample(names, rng.randrange(2, n)))
-        npseed = rng.randrange(2 ** 31)
-        cont = gen.build_continuum(pa, units)
-        dissim = gen.make_dissim(pa, spec)
-        sampler = pa.StatisticalContinuumSampler() if sname == "stat" else pa.ShuffleContinuumSampler(pivot_type="int_pivot" if sname == "shuffle-int" else "float_pivot")
-        desc = {"units": units, "dissim": spec, "mode": mode, "sampler": sname, "precision": prec, "n_samples": n_samples,
-                "ground_truth": gt, "numpy_seed": npseed}
-        np.random.seed(npseed)
-        try:
-            with Recorder(type(sampler)) as rec:
-                res = ac.with_watchdog(600, lambda: cont.compute_gamma(dissim, n_samples=n_samples, precision_level=prec,
-                                                                       ground_truth_annotators=None if gt is None else __import__("sortedcontainers").SortedSet(gt),
-                                                                       sampler=sampler, fast=(mode == "fast"), soft=(mode == "soft")))
-                samples = list(rec.log)
-        except (Exception, ac.Watchdog) as e:
-            rep.case()
-            rep.violation("compute_gamma-raises:" + type(e).__name__, dict(desc, error=repr(e)), "compute_gamma raised %r" % (e,))
-            continue
-        rep.count("mode=" + mode)
-        rep.count("sampler=" + sname)
-        rep.count("precision=" + ("none" if prec is None else "named" if isinstance(prec, str) else "numeric"))
-        rep.count("ground_truth=" + ("subset" if gt else "all"))
-        bad = []
-        chance = res.chance_alignments
-        ds = [al.disorder for al in chance]
-        p = None if prec is None else (levels[prec] if isinstance(prec, str) else prec)
-        # (1) one fresh sample per chance alignment, in draw order
-        if len(samples) != len(chance):
-            bad.append(("samples-drawn", "%d samples drawn for %d chance alignments" % (len(samples), len(chance))))
-        else:
-            for k, (al, s) in enumerate(zip(chance, samples)):
-                if al.continuum is not s:
-                    bad.append(("stale-sample", "chance alignment %d is not the alignment of the %d-th drawn sample" % (k, k)))
-                    break
-            if len(set(id(s) for s in samples)) != len(samples) or any(s is cont for s in samples):
-                bad.append(("shared-sample", "a sampled continuum object is handed out twice or is the input itself"))
-        # (2) number of samples = the rule
-        rule_lines.append([401] + q(conf) + ([0] if p is None else [1] + q(p)) + [n_samples] + w_list(ds[:n_samples], q))
-        rule_meta.append((desc, len(chance), p))
-        # (3) annotators of each sample come from the ground truth
-        gts = gt if gt is not None else names
-        for s in samples:
-            if not s:
-                bad.append(("empty-sample", "an empty continuum was sampled"))
+def one_config(ctx, desc):
+    """one compute_gamma run with the sampler recorded, and every clause checked on it (also what --replay re-runs)"""
+    rep, pa, tier, conf, levels = ctx["rep"], ctx["pa"], ctx["tier"], ctx["conf"], ctx["levels"]
+    rule_lines, rule_meta, check_items = ctx["rule_lines"], ctx["rule_meta"], ctx["check_items"]
+    units, spec, mode, sname, prec = desc["units"], desc["dissim"], desc["mode"], desc["sampler"], desc["precision"]
+    n_samples, gt, npseed = desc["n_samples"], desc["ground_truth"], desc["numpy_seed"]
+    n = len(units)
+    names = gen.ANNOTATORS[:n]
+    identical = all(list(u) == list(units[0]) for u in units)       # every annotator holds the same units: gamma must be 1
+    cont = gen.build_continuum(pa, units)
+    dissim = gen.make_dissim(pa, spec)
+    sampler = pa.StatisticalContinuumSampler() if sname == "stat" else pa.ShuffleContinuumSampler(pivot_type="int_pivot" if sname == "shuffle-int" else "float_pivot")
+    np.random.seed(npseed)
+    try:
+        with Recorder(type(sampler)) as rec:
+            res = ac.with_watchdog(600, lambda: cont.compute_gamma(dissim, n_samples=n_samples, precision_level=prec,
+                                                                   ground_truth_annotators=None if gt is None else __import__("sortedcontainers").SortedSet(gt),
+                                                                   sampler=sampler, fast=(mode == "fast"), soft=(mode == "soft")))
+            samples = list(rec.log)
+    except (Exception, ac.Watchdog) as e:
+        rep.case()
+        rep.violation("compute_gamma-raises:" + type(e).__name__, dict(desc, error=repr(e)), "compute_gamma raised %r" % (e,))
+        return
+    rep.count("mode=" + mode)
+    rep.count("sampler=" + sname)
+    rep.count("precision=" + ("none" if prec is None else "named" if isinstance(prec, str) else "numeric"))
+    rep.count("ground_truth=" + ("subset" if gt else "all"))
+    bad = []
+    chance = res.chance_alignments
+    ds = [al.disorder for al in chance]
+    p = None if prec is None else (levels[prec] if isinstance(prec, str) else prec)
+    # (1) one fresh sample per chance alignment, in draw order
+    if len(samples) != len(chance):
+        bad.append(("samples-drawn", "%d samples drawn for %d chance alignments" % (len(samples), len(chance))))
+    else:
+        for k, (al, s) in enumerate(zip(chance, samples)):
+            if al.continuum is not s:
+                bad.append(("stale-sample", "chance alignment %d is not the alignment of the %d-th drawn sample" % (k, k)))
                 break
-            if sname == "stat":
-                if list(s.annotators) != sorted(gts):
-                    bad.append(("sample-annotators", "sample annotators %r, ground truth %r" % (list(s.annotators), gts)))
-                    break
-            else:
-                if len(s.annotators) != len(gts):
-                    bad.append(("sample-annotators", "%d sampled annotators for %d ground-truth annotators" % (len(s.annotators), len(gts))))
-                    break
-                gt_sets = [sorted((round(u.segment.duration, 9), u.annotation) for u in cont[a]) for a in gts]
-                for a in s.annotators:
-                    if sorted((round(u.segment.duration, 9), u.annotation) for u in s[a]) not in gt_sets:
-                        bad.append(("sample-not-from-ground-truth", "sampled annotator %r is not a shifted copy of a ground-truth annotator" % a))
-                        break
-        # (4) observed = same-mode alignment of the input; expected = mean; gamma
-        try:
-            obs = same_mode_alignment(cont, dissim, mode).disorder
-            if not close(res.observed_disorder, obs, TAU2):
-                bad.append(("observed-disorder", "observed disorder %r, same-mode alignment of the input gives %r" % (float(res.observed_disorder), float(obs))))
-        except Exception as e:
-            bad.append(("observed-recompute-raises", repr(e)))
-        mean = sum((frac(d) for d in ds), Fraction(0)) / len(ds)
-        if not close(res.expected_disorder, mean, TAU2):
-            bad.append(("expected-disorder", "expected disorder %r, mean of the chance disorders %r" % (res.expected_disorder, float(mean))))
-        if mean == 0 and frac(res.observed_disorder) != 0:
-            rep.count("expected_disorder_zero_skipped")      # gamma undefined: outside the statement
-        else:
-            g_exact = Fraction(1) if frac(res.observed_disorder) == 0 else 1 - frac(res.observed_disorder) / mean
-            if not close(res.gamma, g_exact, TAU2 * 4):
-                bad.append(("gamma-value", "gamma %r, 1 - observed/expected = %r" % (float(res.gamma), float(g_exact))))
-            if frac(res.gamma) > 1:
-                bad.append(("gamma-above-1", "gamma %r > 1" % float(res.gamma)))
-            if identical and not close(res.gamma, 1, TAU2):
-                bad.append(("identical-not-1", "identical annotators but gamma = %r" % float(res.gamma)))
-        if res.n_samples != len(chance):
-            bad.append(("n_samples", "n_samples property %r, %d chance alignments" % (res.n_samples, len(chance))))
-        # (5) each chance alignment is a valid same-mode alignment of its own continuum with the matching disorder (checked below in batch)
-        want_cls = "SoftAlignment" if mode == "soft" else "Alignment"
-        for k, al in enumerate(chance):
-            if type(al).__name__ != want_cls:
-                bad.append(("chance-alignment-kind", "chance alignment %d is a %s, the requested mode (%s) produces %s" % (k, type(al).__name__, mode, want_cls)))
+        if len(set(id(s) for s in samples)) != len(samples) or any(s is cont for s in samples):
+            bad.append(("shared-sample", "a sampled continuum object is handed out twice or is the input itself"))
+    # (2) number of samples = the rule
+    rule_lines.append([401] + q(conf) + ([0] if p is None else [1] + q(p)) + [n_samples] + w_list(ds[:n_samples], q))
+    rule_meta.append((desc, len(chance), p))
+    # (3) annotators of each sample come from the ground truth
+    gts = gt if gt is not None else names
+    for s in samples:
+        if not s:
+            bad.append(("empty-sample", "an empty continuum was sampled"))
+            break
+        if sname == "stat":
+            if list(s.annotators) != sorted(gts):
+                bad.append(("sample-annotators", "sample annotators %r, ground truth %r" % (list(s.annotators), gts)))
                 break
-        lim = 3 if tier == "quick" else 6
-        picked = chance[:lim] + (chance[-lim:] if len(chance) > 2 * lim else chance[lim:])     # the head AND the tail (second batch)
-        for al in picked:
-            c2 = al.continuum
-            if c2 is None or not c2:
-                continue
-            I2 = Inst(c2, dissim)
-            tuples = [I2.index_tuple(ua.n_tuple) for ua in al.unitary_alignments]
-            r = {"error": None, "I": I2, "alignment": al, "tuples": tuples, "slots_ok": all(len(ua.n_tuple) == I2.n for ua in al.unitary_alignments),
-                 "disorder": al.disorder, "mode": "chance-" + mode}
-            case = {"units": [[(u.segment.start, u.segment.end, u.annotation) for u in us] for _, us in I2.ann], "spec": spec}
-            check_items[mode].append((case, r))
-        nontriv = (p is not None and len(chance) > n_samples) or gt is not None
-        rep.case(sample={k: desc[k] for k in ("mode", "sampler", "precision", "n_samples", "ground_truth")} | {"chance_alignments": len(chance), "gamma": float(res.gamma)},
-                 nontrivial_key=repr(desc) if nontriv else None)
-        for key, what in bad:
-            rep.violation(key, desc, what)
+        else:
+            if len(s.annotators) != len(gts):
+                bad.append(("sample-annotators", "%d sampled annotators for %d ground-truth annotators" % (len(s.annotators), len(gts))))
+                break
+            gt_sets = [sorted((round(u.segment.duration, 9), u.annotation) for u in cont[a]) for a in gts]
+            for a in s.annotators:
+                if sorted((round(u.segment.duration, 9), u.annotation) for u in s[a]) not in gt_sets:
+                    bad.append(("sample-not-from-ground-truth", "sampled annotator %r is not a shifted copy of a ground-truth annotator" % a))
+                    break
+    # (4) observed = same-mode alignment of the input; expected = mean; gamma
+    try:
+        obs = same_mode_alignment(cont, dissim, mode).disorder
+        if not close(res.observed_disorder, obs, TAU2):
+            bad.append(("observed-disorder", "observed disorder %r, same-mode alignment of the input gives %r" % (float(res.observed_disorder), float(obs))))
+    except Exception as e:
+        bad.append(("observed-recompute-raises", repr(e)))
+    mean = sum((frac(d) for d in ds), Fraction(0)) / len(ds)
+    if not close(res.expected_disorder, mean, TAU2):
+        bad.append(("expected-disorder", "expected disorder %r, mean of the chance disorders %r" % (res.expected_disorder, float(mean))))
+    if mean == 0 and frac(res.observed_disorder) != 0:
+        rep.count("expected_disorder_zero_skipped")      # gamma undefined: outside the statement
+    else:
+        g_exact = Fraction(1) if frac(res.observed_disorder) == 0 else 1 - frac(res.observed_disorder) / mean
+        if not close(res.gamma, g_exact, TAU2 * 4):
+            bad.append(("gamma-value", "gamma %r, 1 - observed/expected = %r" % (float(res.gamma), float(g_exact))))
+        if frac(res.gamma) > 1:
+            bad.append(("gamma-above-1", "gamma %r > 1" % float(res.gamma)))
+        if identical and not close(res.gamma, 1, TAU2):
+            bad.append(("identical-not-1", "identical annotators but gamma = %r" % float(res.gamma)))
+    if res.n_samples != len(chance):
+        bad.append(("n_samples", "n_samples property %r, %d chance alignments" % (res.n_samples, len(chance))))
+    # (5) each chance alignment is a valid same-mode alignment of its own continuum with the matching disorder (checked below in batch)
+    want_cls = "SoftAlignment" if mode == "soft" else "Alignment"
+    for k, al in enumerate(chance):
+        if type(al).__name__ != want_cls:
+            bad.append(("chance-alignment-kind", "chance alignment %d is a %s, the requested mode (%s) produces %s" % (k, type(al).__name__, mode, want_cls)))
+            break
+    lim = 3 if tier == "quick" else 6
+    picked = chance[:lim] + (chance[-lim:] if len(chance) > 2 * lim else chance[lim:])     # the head AND the tail (second batch)
+    for al in picked:
+        c2 = al.continuum
+        if c2 is None or not c2:
+            return
+        I2 = Inst(c2, dissim)
+        tuples = [I2.index_tuple(ua.n_tuple) for ua in al.unitary_alignments]
+        r = {"error": None, "I": I2, "alignment": al, "tuples": tuples, "slots_ok": all(len(ua.n_tuple) == I2.n for ua in al.unitary_alignments),
+             "disorder": al.disorder, "mode": "chance-" + mode}
+        case = {"units": [[(u.segment.start, u.segment.end, u.annotation) for u in us] for _, us in I2.ann], "spec": spec}
+        check_items[mode].append((case, r))
+    nontriv = (p is not None and len(chance) > n_samples) or gt is not None
+    rep.case(sample={k: desc[k] for k in ("mode", "sampler", "precision", "n_samples", "ground_truth")} | {"chance_alignments": len(chance), "gamma": float(res.gamma)},
+             nontrivial_key=repr(desc) if nontriv else None)
+    for key, what in bad:
+        rep.violation(key, desc, what)
+
+
+def finish(ctx):
+    rep, pa = ctx["rep"], ctx["pa"]
+    rule_lines, rule_meta, check_items = ctx["rule_lines"], ctx["rule_meta"], ctx["check_items"]
     # the rule, decided by the model
     outs = run_model(rule_lines)
     for (desc, nchance, p), out in zip(rule_meta, outs):
@@ -239,6 +218,46 @@ def run(rep, tier, seed, pa):
             if f.get("lib_exact_disorder") is not None and not close(r["disorder"], f["lib_exact_disorder"], TAU2):
                 rep.violation("chance-disorder", {"units": case["units"], "dissim": case["spec"], "reported": float(r["disorder"]),
                                                   "exact": str(f["lib_exact_disorder"])}, "a chance alignment's disorder does not match its own units")
+
+
+def run(rep, tier, seed, pa):
+    ac.install_backend_hooks()
+    rng = rng_for(seed, "C05")
+    conf = source_constants()
+    levels = dict(pa.continuum.PRECISION_LEVEL)
+    rep.extra["source_constants"] = {"confidence": conf, "PRECISION_LEVEL": levels}
+    nruns = 45 if tier == "quick" else 450
+    rule_lines, rule_meta = [], []
+    check_items = {"exact": [], "fast": [], "soft": []}
+    ctx = {"rep": rep, "pa": pa, "tier": tier, "conf": conf, "levels": levels, "rule_lines": rule_lines, "rule_meta": rule_meta, "check_items": check_items}
+    for ri in range(nruns):
+        n = rng.choice([2, 3, 3, 4])
+        sizes = [rng.randrange(2, 7 if n < 4 else 4) for _ in range(n)]
+        identical = ri % 9 == 0
+        units = gen.gen_units(rng, n, sizes, "identical" if identical else rng.choice(["perturbed", "random", "disjoint"]), gen.LABEL_SETS["abc"])
+        if identical:
+            units = [list(units[0]) for _ in range(n)]
+        if any(len(u) == 0 for u in units):
+            continue
+        spec = gen.random_dissim_spec(rng, "abc", False, kinds=["pos", "comb", "comb"])
+        if spec[0] == "comb" and spec[4] in ("num",):
+            spec = spec[:4] + ("abs",) + spec[5:]
+        mode = rng.choice(["exact", "exact", "fast", "soft"])
+        sname = rng.choice(["stat", "shuffle-int", "shuffle-float"])
+        # named levels: "high" (1 %) asks for thousands of samples, so it is drawn rarely and only in thorough
+        prec = rng.choice([None, None, 0.9, 0.5, 0.3, 0.2, 0.1, "low", "low", "medium"] if tier == "thorough" else [None, None, 0.9, 0.5, 0.3, 0.2, "low"])
+        if tier == "thorough" and rng.random() < 0.02:
+            prec = "high"
+        n_samples = rng.choice([1, 2, 3, 5, 8])
+        names = gen.ANNOTATORS[:n]
+        gt = None
+        if n >= 3 and rng.random() < 0.4:
+            gt = sorted(rng.sample(names, rng.randrange(2, n)))
+        npseed = rng.randrange(2 ** 31)
+        desc = {"units": units, "dissim": spec, "mode": mode, "sampler": sname, "precision": prec, "n_samples": n_samples,
+                "ground_truth": gt, "numpy_seed": npseed}
+        one_config(ctx, desc)
+    finish(ctx)
     sample = [l for l in rule_lines][:6]
     coq = coq_eval(sample)
     oc = run_model(sample)
@@ -248,24 +267,18 @@ def run(rep, tier, seed, pa):
 
 
 def replay(rep, data, pa):
+    """re-runs the recorded configuration (same NumPy seed) through every clause of the check"""
     ac.install_backend_hooks()
-    from sortedcontainers import SortedSet
-    units = [[tuple(u) for u in us] for us in data["units"]]
-    cont = gen.build_continuum(pa, units)
-    dissim = gen.make_dissim(pa, tuple(data["dissim"]))
-    sname, mode, prec = data["sampler"], data["mode"], data["precision"]
-    sampler = pa.StatisticalContinuumSampler() if sname == "stat" else pa.ShuffleContinuumSampler(pivot_type="int_pivot" if sname == "shuffle-int" else "float_pivot")
-    np.random.seed(data["numpy_seed"])
-    gt = data.get("ground_truth")
-    with Recorder(type(sampler)) as rec:
-        res = cont.compute_gamma(dissim, n_samples=data["n_samples"], precision_level=prec, ground_truth_annotators=None if gt is None else SortedSet(gt),
-                                 sampler=sampler, fast=(mode == "fast"), soft=(mode == "soft"))
-        samples = list(rec.log)
-    conf = source_constants()
-    levels = dict(pa.continuum.PRECISION_LEVEL)
-    p = None if prec is None else (levels[prec] if isinstance(prec, str) else prec)
-    ds = [al.disorder for al in res.chance_alignments]
-    out = run_model([[401] + q(conf) + ([0] if p is None else [1] + q(p)) + [data["n_samples"]] + w_list(ds[:data["n_samples"]], q)])[0]
-    print("  chance alignments %d, samples drawn %d, rule total %d, gamma %r" % (len(ds), len(samples), out[0], float(res.gamma)))
-    ok = len(ds) == out[0] == len(samples) and all(a.continuum is s for a, s in zip(res.chance_alignments, samples)) and float(res.gamma) <= 1
-    return ok
+    desc = {k: data.get(k) for k in ("units", "dissim", "mode", "sampler", "precision", "n_samples", "ground_truth", "numpy_seed")}
+    if desc["units"] is None:
+        print("  C05 replay: this record carries no configuration (%s)" % (data.get("what"),))
+        return False
+    desc["units"] = [[tuple(u) for u in us] for us in desc["units"]]
+    desc["dissim"] = tuple(desc["dissim"])
+    ctx = {"rep": rep, "pa": pa, "tier": "quick", "conf": source_constants(), "levels": dict(pa.continuum.PRECISION_LEVEL),
+           "rule_lines": [], "rule_meta": [], "check_items": {"exact": [], "fast": [], "soft": []}}
+    one_config(ctx, desc)
+    finish(ctx)
+    for key, path, what in rep.violations:
+        print("  (%s) %s" % (key, what[:300]))
+    return not rep.violations
